@@ -18,6 +18,7 @@
 #include "clang/Frontend/CompilerInstance.h"
 #include "clang/Frontend/FrontendAction.h"
 #include "clang/Lex/Lexer.h"
+#include "clang/Lex/Preprocessor.h"
 #include "clang/Tooling/CompilationDatabase.h"
 #include "clang/Tooling/Tooling.h"
 #include "llvm/Support/raw_ostream.h"
@@ -29,6 +30,7 @@
 using namespace clang;
 
 static std::string g_out;
+static clang::Preprocessor *g_pp = nullptr;
 static bool g_main_only = false;
 
 static std::string jstr(llvm::StringRef s) {
@@ -157,7 +159,13 @@ struct Emitter {
                 L = SM.getImmediateSpellingLoc(L);
                 continue;
             }
-            return Lexer::getImmediateMacroName(L, SM, Ctx.getLangOpts()).str();
+            std::string nm = Lexer::getImmediateMacroName(L, SM, Ctx.getLangOpts()).str();
+            if (g_pp) {
+                IdentifierInfo *II = g_pp->getIdentifierInfo(nm);
+                const MacroInfo *MI = II ? g_pp->getMacroInfo(II) : nullptr;
+                if (MI && MI->isFunctionLike()) return "";  // a literal inside a function-like macro body is not that macro's value
+            }
+            return nm;
         }
         return "";
     }
@@ -729,7 +737,10 @@ class Consumer : public ASTConsumer {
 
 class Action : public ASTFrontendAction {
   public:
-    std::unique_ptr<ASTConsumer> CreateASTConsumer(CompilerInstance &, llvm::StringRef) override { return std::make_unique<Consumer>(); }
+    std::unique_ptr<ASTConsumer> CreateASTConsumer(CompilerInstance &CI, llvm::StringRef) override {
+        g_pp = &CI.getPreprocessor();
+        return std::make_unique<Consumer>();
+    }
 };
 
 } // namespace
